@@ -29,12 +29,14 @@ import (
 )
 
 type broker struct {
-	prefill []byte // what the metrics log held before the broker started
-	cmd     *exec.Cmd
-	addr    string
-	stderr  string
-	dir     string
-	exited  chan struct{}
+	smu      sync.Mutex
+	suspects []string // requests that got no byte of a response within their deadline
+	prefill  []byte   // what the metrics log held before the broker started
+	cmd      *exec.Cmd
+	addr     string
+	stderr   string
+	dir      string
+	exited   chan struct{}
 }
 
 func freePort() string {
@@ -169,6 +171,42 @@ func (b *broker) handlersLeft() (n int, excerpt string) {
 		}
 	}
 	return n, excerpt
+}
+
+// suspectTimeout: a response that did not come within the deadline is not yet a
+// verdict (the deadline is a wall clock); it is registered and judged from the
+// broker's state by judgeSuspects. Reports whether errText is such a timeout.
+func (b *broker) suspectTimeout(errText, desc string) bool {
+	if !strings.Contains(errText, "i/o timeout") {
+		return false
+	}
+	b.smu.Lock()
+	b.suspects = append(b.suspects, desc)
+	b.smu.Unlock()
+	return true
+}
+
+// judgeSuspects: called when nothing is in flight any more. With suspects, it
+// waits until every protocol timer has fired twice over, ends the broker with
+// SIGQUIT and lets the goroutine dump decide.
+func (b *broker) judgeSuspects(res *vlib.Result, where string) {
+	b.smu.Lock()
+	sus := append([]string{}, b.suspects...)
+	b.suspects = nil
+	b.smu.Unlock()
+	if len(sus) == 0 {
+		return
+	}
+	time.Sleep(45 * time.Second)
+	n, excerpt := b.handlersLeft()
+	res.Obs("requests_without_a_response_within_the_deadline", int64(len(sus)))
+	if n > 0 {
+		res.Violate("c14:request-never-completes:handler-still-in-broker", fmt.Sprintf("%s: %d request(s) got no response within their deadline (first: %s), and 45 s after the last request %d goroutine(s) are still inside the broker's handlers", where, len(sus), sus[0], n), map[string]interface{}{"case": where, "requests_without_response": sus[:min(len(sus), 10)], "handler_goroutines_left": n, "goroutines": excerpt})
+		return
+	}
+	for _, d := range sus[:min(len(sus), 20)] {
+		res.Inconcl(fmt.Sprintf("%s: %s: no response within the deadline, but no handler was left in the broker afterwards (the machine was too slow)", where, d))
+	}
 }
 
 func (b *broker) panicLines() []string {
@@ -531,7 +569,6 @@ func TestVerifC14(t *testing.T) {
 	batch := 100
 	classes := map[string]bool{}
 	var cmu sync.Mutex
-	var suspects []map[string]interface{}
 	for start := 0; start < nSeq; start += batch {
 		var wg sync.WaitGroup
 		sem := make(chan struct{}, 24)
@@ -567,13 +604,10 @@ func TestVerifC14(t *testing.T) {
 						if rq.BodyLen < 4096 {
 							rec["body_base64"] = base64.StdEncoding.EncodeToString(rq.body)
 						}
-						if strings.Contains(rp.Err, "i/o timeout") {
-							// no byte of a response within 40 s. Whether the request never completes, or
-							// the machine was merely too slow, is decided at the end from the broker's own
-							// state: a handler that is still there when nothing is in flight any more
-							cmu.Lock()
-							suspects = append(suspects, rec)
-							cmu.Unlock()
+						// no byte of a response within 40 s: whether the request never completes, or
+						// the machine was merely too slow, is decided at the end from the broker's own
+						// state - a handler that is still there when nothing is in flight any more
+						if b.suspectTimeout(rp.Err, fmt.Sprintf("seq/%d/%d %s %s (%s)", i, k, rq.Method, rq.Target, rq.BodyDesc)) {
 							continue
 						}
 						res.Violate("c14:no-well-formed-response:"+sigClass(rq), fmt.Sprintf("request %s %s (%s) got: %s", rq.Method, rq.Target, rq.BodyDesc, rp.Err), rec)
@@ -598,23 +632,7 @@ func TestVerifC14(t *testing.T) {
 		res.Violate("c14:handler-panic", fmt.Sprintf("%d 'http: panic serving' lines on the broker's stderr, e.g. %s", len(pl), pl[0]), map[string]interface{}{"case": "stderr", "lines": pl[:min(len(pl), 5)]})
 	}
 	res.Obs("request_classes", int64(len(classes)))
-	if len(suspects) > 0 {
-		// every protocol timer (10 s poll, 10 s answer wait) has fired twice over
-		time.Sleep(45 * time.Second)
-		n, excerpt := b.handlersLeft()
-		res.Obs("requests_without_a_response_within_40s", int64(len(suspects)))
-		if n > 0 {
-			rec := suspects[0]
-			rec["handler_goroutines_left"] = n
-			rec["goroutines"] = excerpt
-			rec["all_requests_without_response"] = len(suspects)
-			res.Violate("c14:request-never-completes:handler-still-in-broker", fmt.Sprintf("%d request(s) got no response within 40 s, and 45 s after the last request %d goroutine(s) are still inside the broker's handlers", len(suspects), n), rec)
-		} else {
-			for _, rec := range suspects {
-				res.Inconcl(fmt.Sprintf("%v: no response within 40 s, but no handler was left in the broker afterwards (the machine was too slow)", rec["case"]))
-			}
-		}
-	}
+	b.judgeSuspects(res, "main")
 	legacyEquivalence(res, root)
 	liveSessionAnswers(res, root)
 	concurrentLoad(res, root)
@@ -684,6 +702,7 @@ func failedReadsThenValid(res *vlib.Result, root *vlib.Rand) {
 		return
 	}
 	defer b.stop()
+	defer b.judgeSuspects(res, "failed-reads")
 	type probe struct {
 		name string
 		rq   *rawReq
@@ -752,6 +771,9 @@ func failedReadsThenValid(res *vlib.Result, root *vlib.Rand) {
 					return
 				}
 				if rs[0].Err != "" {
+					if b.suspectTimeout(rs[0].Err, fmt.Sprintf("failed-reads/%d/%d %s", i, k, p.name)) {
+						return
+					}
 					res.Violatef("c14:later-requests-mishandled:no-reply-after-failed-body-read", rec, "%s after 8 %s requests: %+v", p.name, form, rs[0])
 					return
 				}
@@ -781,6 +803,7 @@ func metricsConcurrent(res *vlib.Result) {
 		return
 	}
 	defer b.stop()
+	defer b.judgeSuspects(res, "metrics-log")
 	res.Require(len(b.prefill) > 1<<20, "the metrics log of the broker under test holds history")
 	check := func(id string, par int) {
 		rs, err := exchange(b.addr, []*rawReq{{Method: "GET", Target: "/metrics"}}, 60*time.Second)
@@ -792,6 +815,9 @@ func metricsConcurrent(res *vlib.Result) {
 			return
 		}
 		if rs[0].Err != "" {
+			if b.suspectTimeout(rs[0].Err, id) {
+				return
+			}
 			rec["status"] = rs[0].Status
 			rec["body_bytes_received"] = len(rs[0].body)
 			res.Violatef("c14:no-well-formed-response:/metrics:concurrent-reads", rec, "GET /metrics among %d simultaneous ones: %s", par, rs[0].Err)
@@ -844,6 +870,7 @@ func liveSessionAnswers(res *vlib.Result, root *vlib.Rand) {
 		return
 	}
 	defer b.stop()
+	defer b.judgeSuspects(res, "live-sessions")
 	n := vlib.Scale(6, 40)
 	var wg sync.WaitGroup
 	for i := 0; i < n; i++ {
@@ -904,6 +931,11 @@ func liveSessionAnswers(res *vlib.Result, root *vlib.Rand) {
 			rec["answer_responses"] = resps
 			res.Obs("live_session_sequences", 1)
 			res.Obs("live_session_sequences_"+variant, 1)
+			for _, rp := range resps {
+				if b.suspectTimeout(rp.Err, fmt.Sprintf("live/%d answer", i)) {
+					return
+				}
+			}
 			if len(resps) < copies {
 				res.Violate("c14:no-well-formed-response:/answer_repeated_for_live_session:"+variant, fmt.Sprintf("%d identical /answer requests for session %s (%s): only %d responses", copies, sid, variant, len(resps)), rec)
 				return
@@ -916,11 +948,17 @@ func liveSessionAnswers(res *vlib.Result, root *vlib.Rand) {
 			}
 			pr := <-pollDone
 			if pr.Err != "" {
+				if b.suspectTimeout(pr.Err, fmt.Sprintf("live/%d poll", i)) {
+					return
+				}
 				res.Violate("c14:no-well-formed-response:/proxy_live_session:"+variant, fmt.Sprintf("the poll of session %s (%s) got: %s", sid, variant, pr.Err), rec)
 				return
 			}
 			if clientDone != nil {
 				if cr := <-clientDone; cr.Err != "" {
+					if b.suspectTimeout(cr.Err, fmt.Sprintf("live/%d client", i)) {
+						return
+					}
 					res.Violate("c14:no-well-formed-response:/client_live_session:"+variant, fmt.Sprintf("the client of session %s got: %s", sid, cr.Err), rec)
 					return
 				}
@@ -957,12 +995,16 @@ func concurrentLoad(res *vlib.Result, root *vlib.Rand) {
 		return
 	}
 	defer b.stop()
+	defer b.judgeSuspects(res, "concurrent-load")
 	dur := time.Duration(vlib.Scale(7, 40)) * time.Second
 	stopAt := time.Now().Add(dur)
 	var wg sync.WaitGroup
 	var reads, matches, bad int64
 	var firstBad atomic.Value
 	note := func(kind string, rp rawResp, err error) {
+		if b.suspectTimeout(rp.Err, "concurrent-load "+kind) {
+			return
+		}
 		atomic.AddInt64(&bad, 1)
 		if firstBad.Load() == nil {
 			firstBad.Store(fmt.Sprintf("%s: err=%v response=%+v", kind, err, rp.Err))
